@@ -652,7 +652,7 @@ def run(ctx):
                 for r in ob['runs']:
                     m = '[' + '; '.join('(%d, %s)' % (i, b2c(r['masks'][mk[0]])) for i, mk in sorted(ob['maskers'].items()) if mk is not None) + ']'
                     exprs.append('run_masks true %s %s' % (net, m))
-            vals = ctx.coq_eval_sharded('cases', ['Plinio.Model.Calc'], '', exprs, shard=120)
+            vals = ctx.coq_eval_sharded('cases', ['Plinio.Model.Calc'], 'Open Scope nat_scope.\n', exprs, shard=120)
             k = 0
             for kind, seed, spec, ob in ok_cases:
                 wfv, flags, calcv, maskv, names = vals[k]
